@@ -186,10 +186,14 @@ def closure_of(callee, args):
 
 
 # ------------------------------------------------------------------------------------------------ f64 intrinsics
-@ext(r'f64::<impl f64>::(\w+)$|^f64::(\w+)$|<f64 as \w+>::(\w+)$')
+@ext(r'f64::<impl f64>::(\w+)$|^f64::(\w+)$|<f64 as [\w:]+>::(\w+)$')
 def f64_method(eng, callee, a, m, fc):
     name = m.group(1) or m.group(2) or m.group(3)
     x = a[0] if a else None
+    if name in ('PI', 'FRAC_PI_2', 'TAU', 'FRAC_PI_4', 'FRAC_PI_3', 'FRAC_PI_6') and not a:
+        import math
+        tab = {'PI': 1, 'FRAC_PI_2': Fraction(1, 2), 'TAU': 2, 'FRAC_PI_4': Fraction(1, 4), 'FRAC_PI_3': Fraction(1, 3), 'FRAC_PI_6': Fraction(1, 6)}
+        return float(tab[name]) * math.pi if MODE[0] == 'conc' else Angle(tab[name])
     if name == 'abs':
         return f_abs(x)
     if name == 'sqrt':
